@@ -285,8 +285,12 @@ func (te *tableEngine) playersAutoIn() {
 		isInCount := 0
 		alivePlayers := 0
 		// this runs on the ready group's own goroutine: the player list may be replaced
-		// meanwhile (a player leaves), so never index it again with positions of this loop
-		for _, player := range te.table.State.PlayerStates {
+		// meanwhile (a player leaves or arrives), so work on a copy taken under the engine
+		// lock and never index the list again with positions of this loop
+		te.lock.Lock()
+		players := append([]*TablePlayerState(nil), te.table.State.PlayerStates...)
+		te.lock.Unlock()
+		for _, player := range players {
 			// 如果時間到了還沒有入座則自動入座
 			if !player.IsIn {
 				te.PlayerJoin(player.PlayerID)
